@@ -559,6 +559,12 @@ func CoherentSchema(t *rapid.T, o SchemaOpts) *SchemaSpec {
 		fieldPool = append(fieldPool, "type")
 	}
 
+	// Member names are case-sensitive: ID and Id are fields like any other
+	// (only id is reserved).
+	if rapid.IntRange(0, 7).Draw(t, "idlike") == 0 {
+		fieldPool = append(fieldPool, rapid.SampledFrom([]string{"ID", "Id", "iD", "Type"}).Draw(t, "idlike-name"))
+	}
+
 	// Names with a json tag option are only used for attributes (a comma in
 	// the inverse name of a relationship would change the arity of its api tag).
 	attrPool := fieldPool
@@ -636,6 +642,25 @@ func CoherentSchema(t *rapid.T, o SchemaOpts) *SchemaSpec {
 				Name:     name,
 				Type:     rapid.SampledFrom(Kinds).Draw(t, "wide-kind"),
 				Nullable: rapid.Bool().Draw(t, "wide-nullable"),
+			})
+		}
+	}
+
+	// ... or many relationships (more than 32).
+	if !o.NoWide && rapid.IntRange(0, 59).Draw(t, "widerels") == 41 {
+		i := rapid.IntRange(0, n-1).Draw(t, "widerels-type")
+		nw := rapid.IntRange(33, 40).Draw(t, "widerels-n")
+
+		for j := 0; j < nw; j++ {
+			name := fmt.Sprintf("v%02d", j)
+			if used[i][name] {
+				continue
+			}
+
+			used[i][name] = true
+			specs[i].Rels = append(specs[i].Rels, jsonapi.Rel{
+				FromType: specs[i].Name, FromName: name, ToOne: rapid.Bool().Draw(t, "widerels-toOne"),
+				ToType: specs[rapid.IntRange(0, n-1).Draw(t, "widerels-to")].Name,
 			})
 		}
 	}
